@@ -8,7 +8,11 @@ class C01(Prop):
                 "C01_read_info", "C01_chrom_table", "C01_accepted_runs", "C01_query", "C01_roundtrip",
                 "C01_roundtrip_multipass", "C01_roundtrip_file_exact", "C01_same_regions",
                 "C01_chrom_table_on_input", "C01_query_on_input", "C01_roundtrip_on_input",
-                "C01_zero_length_boundary_refuted", "C01_split_chromosome_refused", "C01_accepted_one_run_per_chromosome"]
+                "C01_zero_length_boundary_refuted", "C01_split_chromosome_refused", "C01_accepted_one_run_per_chromosome",
+                "C01_read_info_compressed", "C01_buf_size_compressed", "C01_buf_size_compressed_multipass",
+                "C01_chrom_table_compressed", "C01_accepted_runs_compressed", "C01_query_compressed",
+                "C01_roundtrip_compressed", "C01_roundtrip_file_exact_compressed",
+                "C01_chrom_table_compressed_on_input", "C01_query_compressed_on_input", "C01_roundtrip_compressed_on_input"]
     RULE = ("bbi cases: 1-6 chromosomes (names whose first-appearance, lexicographic and id order differ), per chromosome a layout "
             "from the grammar dense/sparse/adjacent/zero-length/edge-touching/long gap/long item, arbitrary finite f32 bit patterns, "
             "options from compress x items_per_slot{1,2,3,7,1024} x block_size{2,3,4,5,256} x zoom modes x single/two pass; "
